@@ -471,7 +471,8 @@ pub fn do_op(sh: &Shared, tid: usize, kind: Kind, rng: &mut Rng) {
     }
     Kind::MultiInsert => {
       let mut items: Vec<(u64, Val, u64)> = Vec::new();
-      let n = rng.range(2, 5);
+      // the accounting property also gets bursts: more writes queued on one shard than one maintenance pass drains
+      let n = if sh.scn.prop == Prop::C13 && sh.scn.keys >= 24 && rng.chance(1, 3) { rng.range(18, 40) } else { rng.range(2, 5) };
       for _ in 0..n {
         let Some(k) = sh.write_key(rng) else { break };
         if items.iter().any(|i| i.0 == k) {
@@ -575,6 +576,16 @@ pub fn do_op(sh: &Shared, tid: usize, kind: Kind, rng: &mut Rng) {
       let k = sh.any_key(rng);
       ev.keys = vec![k];
       run_op(log, ev, || if asy { block_on(a.fetch_with(&k)) } else { c.fetch_with(&k) }, |e, r| e.obs.push(obs_of(k, &r)));
+      // a caller released from a load that at once invalidates the key and asks again must get a fresh load,
+      // never the value it has just removed (the finished load's marker may still be around)
+      if !sh.scn.insert_once && rng.chance(1, 4) {
+        let mut ev2 = Ev::new(tid, Kind::Invalidate, asy);
+        ev2.keys = vec![k];
+        run_op(log, ev2, || if asy { block_on(a.invalidate(&k)) } else { c.invalidate(&k) }, |e, r| e.flag = Some(r));
+        let mut ev3 = Ev::new(tid, Kind::FetchWith, asy);
+        ev3.keys = vec![k];
+        run_op(log, ev3, || if asy { block_on(a.fetch_with(&k)) } else { c.fetch_with(&k) }, |e, r| e.obs.push(obs_of(k, &r)));
+      }
     }
     Kind::Get => {
       let k = sh.any_key(rng);
